@@ -25,7 +25,12 @@ ASSUMPTIONS = ["deletion oracle computed densely from one eager kernel/mean/like
                "fill on the multitask model / MLL is documented as unsupported: a refusal is accepted, a wrong value is not"]
 
 CTX = {"default": lambda: [], "fpv": lambda: [S.fast_pred_var()], "nolazy": lambda: [S.lazily_evaluate_kernels(False)]}
-ORDERS = [["mask"], ["fill"], ["mask", "fill"], ["fill", "mask"], ["mask", "train", "eval", "fill"]]
+import itertools as _it
+
+# every sequence over {mask, fill} up to length 3 (a cache filled under one policy is reused or must be rebuilt under the next),
+# plus mode switches in between
+ORDERS = [list(o) for k in (1, 2, 3) for o in _it.product(["mask", "fill"], repeat=k)] + [
+    ["mask", "train", "eval", "fill"], ["fill", "train", "eval", "fill"], ["fill", "ignore_clean", "fill"]]
 
 
 def cells(tier, seed):
@@ -120,13 +125,15 @@ def run_cell(cell, seed):
     y = y0.clone()
     y[nanmask] = float("nan")
     ops = 0
-    orders = ORDERS if kind != "batch" else [["mask"], ["fill"], ["mask", "fill"], ["fill", "mask"]]
+    orders = ORDERS if kind != "batch" else [o for o in ORDERS if len(o) <= 2 and "train" not in o]
     clean = build(kind, seed, X, y0)
     for order in orders:
         model = build(kind, seed, X, y)
         for step in order:
             if step in ("train", "eval"):
                 getattr(model, step)()
+                continue
+            if step == "ignore_clean":
                 continue
             pol = step
             f2 = dict(feats, policy=pol, order="->".join(order))
@@ -176,6 +183,39 @@ def run_cell(cell, seed):
                     charact = "covariance equals the one conditioning on ALL inputs (NaN rows kept)" if util.close(gc, allc, 1e-7, 1e-7)[0] else "uncharacterised"
                     fails.append({"sub": "covariance", "symptom": f"posterior covariance != covariance after deleting the NaN observations: err={msg}; {charact}",
                                   "detail": f"b={b}", "features": f2})
+    # fantasy model of a model with NaN targets (and NaN among the fantasy targets) == deletion oracle on the concatenated data
+    if kind == "single" and cell["ctx"] in ("default", "fpv") and 0 < int(nanmask.sum()) < nanmask.numel():
+        gf = util.gen(seed, "c16fant")
+        Xf, yf0 = util.rand(gf, 2, X.shape[-1]), util.randn(gf, 2)
+        for pol, fant_nan in itertools.product(("mask", "fill"), (False, True)):
+            f2 = dict(feats, policy=pol, order="fantasy" + ("+nan" if fant_nan else ""))
+            yf = yf0.clone()
+            if fant_nan:
+                yf[1] = float("nan")
+            try:
+                model = build(kind, seed, X, y)
+                with settings_ctx(cell["ctx"]), S.observation_nan_policy(pol), torch.no_grad():
+                    model(Xs)
+                    fm = model.get_fantasy_model(Xf, yf)
+                    out = fm(Xs)
+                    gm, gc = out.mean, out.covariance_matrix
+                ops += 2
+            except Exception as e:
+                fails.append({"sub": "fantasy-nan", "symptom": util.exc_str(e), "detail": "", "features": f2})
+                continue
+            Xall, yall0 = torch.cat([X, Xf]), torch.cat([y0, yf0])
+            obs = torch.cat([~nanmask, torch.tensor([True, not fant_nan])])
+            clean2 = build(kind, seed, Xall, yall0)
+            wm, wc, _, _, _ = deletion_reference(clean2, Xall, yall0, Xs, obs, kind)
+            if torch.isnan(gm).any() or torch.isnan(gc).any():
+                fails.append({"sub": "fantasy-nan", "symptom": "NaN in the fantasy model's posterior", "detail": "", "features": f2})
+                continue
+            ok, msg = util.close(gm, wm, 1e-7, 1e-7)
+            if not ok:
+                fails.append({"sub": "fantasy-nan", "symptom": f"fantasy posterior mean != deletion oracle on concatenated data: err={msg}", "detail": "", "features": f2})
+            ok, msg = util.close(gc, wc, 1e-7, 1e-7)
+            if not ok:
+                fails.append({"sub": "fantasy-nan", "symptom": f"fantasy posterior covariance != deletion oracle on concatenated data: err={msg}", "detail": "", "features": f2})
     # MLL under mask: n_total * mll == n_observed * mll_deleted  (fill is documented as unsupported for the MLL)
     if kind in ("single", "multitask") and cell["ctx"] == "default" and int((~nanmask).sum()) > 0:
         f2 = dict(feats, policy="mask", order="mll")
